@@ -3043,3 +3043,109 @@ func ruleSearchNormalisesBoth(c *eng.Ctx) {
 	sort.Strings(lop)
 	c.Check(len(lop) == 0, R, name, fn.Pos(), "keyword and text are folded by the same functions", strings.Join(lop, ", ")+" is applied to one side of the comparison only: the two sides are no longer compared under one normalisation, and chunks whose match needs the full folding are silently left out")
 }
+
+// R15.9 [C15]
+func ruleOneHeaderRow(c *eng.Ctx) {
+	const R = "R15.9-ONE-HEADER-ROW"
+	c.Rule(R, "a pipe table has exactly one header line directly followed by the delimiter row: in the table renderers no loop over the rows writes cell text before the delimiter row is written (a second 'header' line in front of the delimiter puts the first one outside the table)", 6, 0)
+	for _, root := range c.P.ModuleFuncs() {
+		if root.Name() != "ToMarkdown" || root.Signature.Recv() == nil || root.Pkg == nil || root.Blocks == nil {
+			continue
+		}
+		rt := root.Signature.Recv().Type()
+		if pt, ok := rt.(*types.Pointer); ok {
+			rt = pt.Elem()
+		}
+		st, ok := rt.Underlying().(*types.Struct)
+		if !ok {
+			continue
+		}
+		hasRows := false
+		for i := 0; i < st.NumFields(); i++ {
+			if st.Field(i).Name() == "Rows" {
+				hasRows = true
+			}
+		}
+		if !hasRows {
+			continue
+		}
+		// the delimiter write: a constant containing "---"
+		var sep *ssa.BasicBlock
+		eng.Instrs(root, false, func(in ssa.Instruction) {
+			if sep != nil {
+				return
+			}
+			var ops []ssa.Value
+			switch x := in.(type) {
+			case ssa.CallInstruction:
+				if strings.HasSuffix(eng.CalleeName(x), ").WriteString") {
+					ops = x.Common().Args
+				}
+			case *ssa.BinOp:
+				if x.Op == token.ADD && isStringValue(x) {
+					ops = []ssa.Value{x.X, x.Y}
+				}
+			}
+			for _, o := range ops {
+				if s, ok := eng.ConstString(o); ok && strings.Contains(s, "---") {
+					sep = in.Block()
+				}
+			}
+		})
+		if sep == nil {
+			continue
+		}
+		bad := token.NoPos
+		for _, h := range root.Blocks {
+			if !eng.InLoop(h) || !h.Dominates(sep) || h == sep {
+				continue
+			}
+			// the delimiter is written after this loop, not inside it
+			inLoop := func(b *ssa.BasicBlock) bool {
+				return h.Dominates(b) && eng.ReachableBlocks([]*ssa.BasicBlock{b}, nil)[h]
+			}
+			if inLoop(sep) {
+				continue
+			}
+			// a loop over rows: its induction variable indexes a slice of rows
+			overRows := false
+			writes := false
+			for _, b := range root.Blocks {
+				if !inLoop(b) && b != h {
+					continue
+				}
+				for _, in := range b.Instrs {
+					switch x := in.(type) {
+					case *ssa.IndexAddr:
+						if sl, ok := x.X.Type().Underlying().(*types.Slice); ok {
+							if _, rows := sl.Elem().Underlying().(*types.Slice); rows {
+								if ph, isInd := eng.Induction(x.Index); isInd && ph.Block() == h {
+									overRows = true
+								}
+							}
+						}
+					case ssa.CallInstruction:
+						if strings.HasSuffix(eng.CalleeName(x), ").WriteString") {
+							a := x.Common().Args
+							if _, isC := eng.ConstString(a[len(a)-1]); !isC {
+								writes = true
+							}
+						}
+					case *ssa.BinOp:
+						if x.Op == token.ADD && isStringValue(x) {
+							_, c1 := eng.ConstString(x.X)
+							_, c2 := eng.ConstString(x.Y)
+							if !c1 && !c2 {
+								writes = true
+							}
+						}
+					}
+				}
+			}
+			if overRows && writes {
+				bad = h.Instrs[0].Pos()
+			}
+		}
+		c.Check(bad == token.NoPos, R, eng.FuncName(root), root.Pos(), "one row is written before the delimiter row", "a loop over the rows writes cell text before the delimiter row ("+c.P.Pos(bad)+"): with more than one line in front of the delimiter the first is no longer part of the table")
+	}
+}
